@@ -13,7 +13,7 @@ CFG = {'assumptions': ['min/max on i64 are the modelled lattices'],
  'link_only': 'set-union / set-intersect / nested function merges (containers) are exercised by the '
               'engine-side predicate only; the parallel insertion path is covered by running the same '
               'sessions with 4 threads and cut-offs 0',
- 'model_targets': ['Egg/Rules.vo', 'Egg/Collide.vo'],
+ 'model_targets': ['Egg/Rules.vo'],
  'proof_targets': ['Props/C05.vo'],
  'theorem_backed': 'every collision path of core-relations/src/table/mod.rs as written now (regenerated inventory: serial x2, parallel flush, in-batch staging) stores the MERGED row, hence keeps the fold; staging + flush = fold over the stored value; fold algebra (permutation, batching, idempotence), table-level: value after any write '
                    'sequence = fold of the lattice merge, order-irrelevance, batching, collisions created by '
